@@ -628,11 +628,30 @@ class Check:
         sys.exit(0 if ok else 1)
 
 
-def run_impl(script: str, payload: dict, timeout=1800):
-    """Run harness/<script> under /venv/bin/python with PYTHONPATH=/repo; JSON in, JSON out."""
+def run_impl(script: str, payload: dict, timeout=1800, shards=None):
+    """Run harness/<script> under /venv/bin/python with PYTHONPATH=/repo; JSON in, JSON out.
+    Payloads with a long "cases" list are split into contiguous shards that run as concurrent processes (the runner scripts
+    treat cases independently); the results are concatenated in the original order."""
+    cases = payload.get("cases") if isinstance(payload, dict) else None
+    if shards is None:
+        auto = os.path.basename(script) in ("solve_impl.py", "c06_impl.py", "c08_impl.py", "c16_impl.py")
+        shards = 1 if (not auto or not isinstance(cases, list) or len(cases) < 24) else min(12, len(cases) // 12)
+    if shards > 1:
+        n = len(cases)
+        bounds = [(k * n) // shards for k in range(shards + 1)]
+        parts = [dict(payload, cases=cases[bounds[k]:bounds[k + 1]]) for k in range(shards)]
+        with cf.ThreadPoolExecutor(max_workers=shards) as ex:
+            outs = list(ex.map(lambda a: _run_impl_one(script, a[1], timeout, tag=f"s{a[0]}"), enumerate(parts)))
+        merged = dict(outs[0])
+        merged["results"] = [r for o in outs for r in o["results"]]
+        return merged
+    return _run_impl_one(script, payload, timeout)
+
+
+def _run_impl_one(script: str, payload: dict, timeout=1800, tag=""):
     ensure_work()
-    inp = os.path.join(WORK, f"in_{os.path.basename(script)}_{os.getpid()}.json")
-    outp = os.path.join(WORK, f"out_{os.path.basename(script)}_{os.getpid()}.json")
+    inp = os.path.join(WORK, f"in_{os.path.basename(script)}_{os.getpid()}{tag}.json")
+    outp = os.path.join(WORK, f"out_{os.path.basename(script)}_{os.getpid()}{tag}.json")
     with open(inp, "w") as f:
         json.dump(payload, f)
     rc, out = sh([PY, os.path.join(VERIF, "harness", script), inp, outp], timeout=timeout, env=impl_env())
